@@ -230,7 +230,7 @@ fn eval_steps_opts(ctx: &mut Ctx, script: Vec<Step>, case_json: Value, partial_l
     }
     let got = &got_v;
     ctx.outcome(&(syms, got.iter().map(|r| r.key).collect::<Vec<_>>()));
-    if !got.iter().any(|r| r.key == Y) {
+    if with.iter().any(|r| r.key == Y) && !got.iter().any(|r| r.key == Y) {
         ctx.violation("C18/healthy-not-decoded", &key, || format!("script {key}: after the healthy connection Y is not in the table ({} rows)", got.len()), case);
         return;
     }
@@ -249,7 +249,8 @@ fn eval_steps_opts(ctx: &mut Ctx, script: Vec<Step>, case_json: Value, partial_l
             silent_after[k] = acc;
         }
         for (k, st) in script.iter().enumerate() {
-            if matches!(st, Step::AcceptSend(_) | Step::AcceptSendHold(..)) && silent_after[k] < d_ms {
+            let filtered = opts.contains(&"-f");
+            if !filtered && matches!(st, Step::AcceptSend(_) | Step::AcceptSendHold(..)) && silent_after[k] < d_ms {
                 ctx.count("learned-earlier-still-listed");
                 let row = got.iter().find(|r| r.key == x_addr(k));
                 if row.is_none_or(|r| r.squawk != Some(4521)) {
@@ -364,7 +365,7 @@ fn run(ctx: &mut Ctx) {
         }
     }
     // option sets: every script of length <= 2 under -d 0, -d 1, -U -R, and with the table drawn after every frame
-    for (oi, opts) in [&["-d", "0"][..], &["-d", "1"][..], &["-U", "-R"][..], &["-i", "", "--update=-1", "-c"][..], &["-d", "12", "-u", "6"][..], &["-d", "30", "-u", "20"][..]].iter().enumerate() {
+    for (oi, opts) in [&["-d", "0"][..], &["-d", "1"][..], &["-U", "-R"][..], &["-i", "", "--update=-1", "-c"][..], &["-d", "12", "-u", "6"][..], &["-d", "30", "-u", "20"][..], &["-f", "21"][..], &["-f", "4", "-c"][..]].iter().enumerate() {
         for len in 0..=2usize {
             for idx in 0..NSYM.pow(len as u32) {
                 job += 1;
@@ -482,9 +483,9 @@ fn replay(ctx: &mut Ctx, case: &Value) {
     let syms: Vec<usize> = case.get("script").and_then(|s| s.as_array()).map(|a| a.iter().filter_map(|x| x.as_u64().map(|v| v as usize)).collect()).unwrap_or_default();
     let pl = case.get("partial_len").and_then(|x| x.as_u64()).unwrap_or(9) as usize;
     if let Some(oi) = case.get("opts").and_then(|x| x.as_u64()) {
-        let all: [&[&str]; 6] = [&["-d", "0"], &["-d", "1"], &["-U", "-R"], &["-i", "", "--update=-1", "-c"], &["-d", "12", "-u", "6"], &["-d", "30", "-u", "20"]];
+        let all: [&[&str]; 8] = [&["-d", "0"], &["-d", "1"], &["-U", "-R"], &["-i", "", "--update=-1", "-c"], &["-d", "12", "-u", "6"], &["-d", "30", "-u", "20"], &["-f", "21"], &["-f", "4", "-c"]];
         let script: Vec<Step> = syms.iter().enumerate().map(|(k, s)| step_of(*s, k, pl)).collect();
-        eval_steps_opts(ctx, script, case.clone(), pl, all[oi as usize % 6]);
+        eval_steps_opts(ctx, script, case.clone(), pl, all[oi as usize % 8]);
         return;
     }
     crate::run::say(&format!("script {:?} partial_len {pl}", syms.iter().enumerate().map(|(k, s)| step_of(*s, k, pl).name()).collect::<Vec<_>>()));
